@@ -21,6 +21,7 @@ CONSTANTS
   Faults = {"cutsrc", "endsrc", "cutsink", "softcut"}
   AdvMsgs = {}
   MaxAdv = 0
+  Bridgers = {}
   MaxHandles = 1
   MaxCtr = 1
 VIEW View
